@@ -33,7 +33,7 @@ Fixpoint is_prefix (a b : list ev) : bool :=
   end.
 
 Definition pymodel_ok (c : c13_case) : bool :=
-  forallb (fun x => match x with (proto, ds, b) => beqb (py_dumps proto ds) b end) (p_py c).
+  forallb (fun x => match x with (proto, ds, b) => beqb (if proto =? 4 then py_dumps4 ds else py_dumps proto ds) b end) (p_py c).
 
 Definition c13_verdict (c : c13_case) : N :=
   if negb (pymodel_ok c) then 7 else
